@@ -3018,6 +3018,211 @@ main(int argc, char** argv)
     }
   }
 
+  // ================================================================ 6. projection-data headers of TOF-capable scanners, TOF / size-giving keys in ANY order
+  // op: hdr pdfs <known> <max TOF bins> <bin size> <resolution> x<text>      (the scanner that 'originating system' names)
+  // answer: rej | err | errmash | erreven | errtof | ok <num_timing_poss> <TOF bins of the geometry> <TOF mashing factor of the geometry> <segments> <views> <bins> <axial positions…>
+  // against the Lean model of find_storage_order / resize_segments_and_set / the size part of InterfilePDFSHeader::post_processing.
+  // ORACLE: accepted => the geometry that was built has exactly the TOF bins the header declares (1 for 4-D, 'matrix size [5]'
+  //         for 5-D) and sum(axial positions) x views x tangential positions of the 'matrix size' lines.
+  {
+    vh::Rng rng6(std::strtoull(argv[1], nullptr, 10) * 69069ULL + 6006);
+    long n_ops = 0, n_ok = 0, n_errtof = 0, n_rej = 0;
+    for (int b = 0; b < 4; ++b)
+      {
+        std::string base_text;
+        try
+          {
+            const bool named = b >= 2, tof = b % 2 == 1;
+            shared_ptr<Scanner> scanner;
+            shared_ptr<ProjDataInfo> pdi;
+            if (named)
+              {
+                scanner.reset(new Scanner(Scanner::Discovery690));
+                pdi = vh::make_pdi(scanner, 1, rng6.range(0, 1), 18, rng6.range(3, 6), false, tof ? 5 : 0);
+              }
+            else
+              {
+                scanner = vh::make_scanner(2 * rng6.range(4, 10), rng6.range(2, 4), tof ? 15 : 2 * rng6.range(2, 5) + 1);
+                pdi = vh::make_pdi(scanner, 1, scanner->get_num_rings() - 1, scanner->get_num_detectors_per_ring() / 2, scanner->get_num_detectors_per_ring() / 2 - 1,
+                                   false, tof ? 3 : 0);
+              }
+            shared_ptr<ExamInfo> exam(new ExamInfo);
+            exam->imaging_modality = ImagingModality::PT;
+            const std::string base = outdir + "/tofhdr_" + std::to_string(b);
+            {
+              ProjDataInterfile pd(exam, pdi, base);
+            }
+            base_text = slurp(base + ".hs");
+          }
+        catch (std::exception& e)
+          {
+            ++g_oracle_checks;
+            oracle_fail(std::string("TOF header family: the library could not write its own projection-data header: ") + one_line(e.what()));
+            continue;
+          }
+        const std::vector<std::string> lines = split_lines(base_text);
+        const int n = static_cast<int>(lines.size());
+        // the scanner named by 'originating system', as post_processing will look it up
+        std::string cfg = "0 -1 -1 -1";
+        long maxtof = 55, mash = 0;
+        {
+          std::string name;
+          for (const std::string& l : lines)
+            {
+              const std::string k = c17::std_key_of(l);
+              const std::size_t as = l.find(":=");
+              if (as == std::string::npos)
+                continue;
+              std::string v = l.substr(as + 2);
+              while (!v.empty() && v[0] == ' ')
+                v.erase(0, 1);
+              if (k == "originating system")
+                name = v;
+              if (k == "maximum number of (unmashed) tof time bins")
+                maxtof = std::atol(v.c_str());
+              if (k == "tof mashing factor")
+                mash = std::atol(v.c_str());
+            }
+          shared_ptr<Scanner> guess(Scanner::get_scanner_from_name(name));
+          const bool known = guess->get_type() != Scanner::Unknown_scanner && guess->get_type() != Scanner::User_defined_scanner;
+          cfg = std::string(known ? "1 " : "0 ") + std::to_string(guess->get_max_num_timing_poss()) + " " + std::to_string(static_cast<long>(guess->get_size_of_timing_pos())) + " "
+                + std::to_string(static_cast<long>(guess->get_timing_resolution()));
+        }
+        auto run = [&](const std::vector<std::string>& l, const std::string& how) {
+          const std::string text = join_lines(l);
+          std::string ans;
+          try
+            {
+              c17::PdfsHdrProbe h;
+              std::istringstream in(text);
+              if (!h.parse(in) || !h.data_info_sptr)
+                {
+                  ans = "rej";
+                  ++n_rej;
+                }
+              else
+                {
+                  ++n_ok;
+                  const ProjDataInfo& pi = *h.data_info_sptr;
+                  ans = "ok " + std::to_string(h.num_timing_poss) + " " + std::to_string(pi.get_num_tof_poss()) + " " + std::to_string(pi.get_tof_mash_factor()) + " "
+                        + std::to_string(h.num_segments) + " " + std::to_string(h.num_views) + " " + std::to_string(h.num_bins);
+                  long axial = 0, axial_info = 0;
+                  for (int a : h.num_rings_per_segment)
+                    {
+                      ans += " " + std::to_string(a);
+                      axial += a;
+                    }
+                  for (int seg = pi.get_min_segment_num(); seg <= pi.get_max_segment_num(); ++seg)
+                    axial_info += pi.get_num_axial_poss(seg);
+                  g_oracle_checks += 2;
+                  const long declared = h.num_dimensions == 4 ? 1 : (h.num_dimensions == 5 && h.matrix_size.size() == 5 && !h.matrix_size[4].empty() ? h.matrix_size[4][0] : -1);
+                  if (pi.get_num_tof_poss() != h.num_timing_poss || declared != pi.get_num_tof_poss())
+                    oracle_fail("Interfile projection-data header (" + how + ") accepted: the geometry has " + std::to_string(pi.get_num_tof_poss())
+                                + " TOF bins (TOF mashing factor " + std::to_string(pi.get_tof_mash_factor()) + "), the header declares " + std::to_string(declared)
+                                + " ('number of dimensions := " + std::to_string(h.num_dimensions) + "'): " + text);
+                  if (axial != axial_info || pi.get_num_views() != h.num_views || pi.get_num_tangential_poss() != h.num_bins)
+                    oracle_fail("Interfile projection-data header (" + how + ") accepted with a geometry whose sizes differ from the 'matrix size' lines: " + text);
+                }
+            }
+          catch (std::bad_alloc&)
+            {
+              throw;
+            }
+          catch (std::exception& e)
+            {
+              const std::string w = e.what();
+              ans = w.find("must be smaller than or equal to the scanner's number of max timing bins") != std::string::npos ? "errmash"
+                    : w.find("Number of TOF bins should be an odd number") != std::string::npos                          ? "erreven"
+                    : w.find("inconsistency between number of TOF bins") != std::string::npos                             ? "errtof"
+                                                                                                                           : "err";
+              if (ans == "errtof")
+                ++n_errtof;
+            }
+          emit("hdr pdfs " + cfg + " " + hexs(text), ans);
+          ++n_ops;
+          return ans;
+        };
+        {
+          ++g_oracle_checks;
+          const std::string a = run(lines, "as written by the library");
+          if (a.compare(0, 3, "ok ") != 0)
+            oracle_fail("the library's own projection-data header of a TOF-capable scanner is not accepted (" + a + "): " + base_text);
+        }
+        auto insert_at = [&](const std::string& x, int pos) {
+          std::vector<std::string> l = lines;
+          l.insert(l.begin() + std::max(1, std::min(pos, n - 1)), x);
+          return l;
+        };
+        std::vector<std::string> mash_lines, timing_lines;
+        for (long m : { 0L, 1L, 3L, 5L, maxtof, maxtof + 1, -1L, 2L, mash })
+          mash_lines.push_back(std::string(rng6.range(0, 3) == 0 ? "%TOF mashing factor := " : "TOF mashing factor := ") + std::to_string(m));
+        for (long v : { maxtof, 3 * maxtof, 1L, 0L, -1L, 11L })
+          {
+            timing_lines.push_back("Maximum number of (unmashed) TOF time bins := " + std::to_string(v));
+            timing_lines.push_back("Number of TOF time bins := " + std::to_string(v));
+          }
+        for (const char* v : { "89", "0", "-1" })
+          {
+            timing_lines.push_back(std::string("Size of unmashed TOF time bins (ps) := ") + v);
+            timing_lines.push_back(std::string("Size of timing bin (ps) := ") + v);
+            timing_lines.push_back(std::string("TOF timing resolution (ps) := ") + v);
+            timing_lines.push_back(std::string("timing resolution (ps) := ") + v);
+          }
+        for (long T : { 1L, 3L, 5L, 11L })
+          {
+            std::string o = "TOF bin order := {";
+            for (long j = 0; j < T; ++j)
+              o += (j ? "," : "") + std::to_string(j - T / 2);
+            timing_lines.push_back(o + "}");
+          }
+        // (a) a mashing-factor line at every position (quick: every position for two values, sampled for the others)
+        for (std::size_t v = 0; v < mash_lines.size(); ++v)
+          for (int pos = 1; pos < n; pos += (thorough || v == 3) ? 1 : 6)
+            run(insert_at(mash_lines[v], pos + (thorough || v == 3 ? 0 : rng6.range(0, 5))), "'" + mash_lines[v] + "' inserted");
+        // (b) the header's own TOF lines removed / moved
+        for (int k = 1; k + 1 < n; ++k)
+          {
+            const std::string key = c17::std_key_of(lines[k]);
+            if (key.find("tof") == std::string::npos && key.find("timing") == std::string::npos)
+              continue;
+            std::vector<std::string> without = lines;
+            without.erase(without.begin() + k);
+            run(without, "'" + key + "' removed");
+            for (int j = 0; j < (thorough ? 40 : 6); ++j)
+              {
+                std::vector<std::string> l = without;
+                l.insert(l.begin() + rng6.range(1, static_cast<int>(l.size()) - 1), lines[k]);
+                run(l, "'" + key + "' moved");
+              }
+          }
+        // (c) scanner timing keys / bin order inserted anywhere, alone and together with a mashing factor
+        for (int j = 0; j < (thorough ? 1500 : 90); ++j)
+          {
+            std::vector<std::string> l = insert_at(timing_lines[rng6.range(0, static_cast<int>(timing_lines.size()) - 1)], rng6.range(1, n - 1));
+            if (rng6.coin())
+              l.insert(l.begin() + rng6.range(1, static_cast<int>(l.size()) - 1), mash_lines[rng6.range(0, static_cast<int>(mash_lines.size()) - 1)]);
+            if (rng6.range(0, 3) == 0)
+              l.insert(l.begin() + rng6.range(1, static_cast<int>(l.size()) - 1), timing_lines[rng6.range(0, static_cast<int>(timing_lines.size()) - 1)]);
+            run(l, "TOF keys inserted");
+          }
+        // (d) the size-giving lines (number of dimensions, matrix size / axis label, ring differences) in another order, with and without a TOF key moved as well
+        for (int j = 0; j < (thorough ? 600 : 50); ++j)
+          {
+            std::string how;
+            std::vector<std::string> l = c17::reorder_header(lines, rng6, how);
+            if (rng6.coin())
+              l.insert(l.begin() + rng6.range(1, static_cast<int>(l.size()) - 1), mash_lines[rng6.range(0, static_cast<int>(mash_lines.size()) - 1)]);
+            run(l, how);
+          }
+        for (auto& d : c17::directed_reorders(lines))
+          run(d.second, d.first);
+      }
+    ++g_oracle_checks;
+    if (n_ops < 400 || n_ok < 100 || n_errtof < 20 || n_rej < 5)
+      oracle_fail("TOF header family: too few operations / verdicts of each kind (ops " + std::to_string(n_ops) + ", accepted " + std::to_string(n_ok) + ", refused by the final TOF check "
+                  + std::to_string(n_errtof) + ", rejected " + std::to_string(n_rej) + "): the generator or the library's reading of its own keys changed");
+  }
+
   std::fprintf(g_orc, "ORACLE-DONE checks=%ld fails=%ld\n", g_oracle_checks, g_oracle_fails);
   std::fclose(g_ops);
   std::fclose(g_out);
